@@ -531,10 +531,11 @@ class QuicConnection:
 
         :param now: The current time.
         """
-        network_path = self._network_paths[0]
-
-        if self._state in END_STATES:
+        if self._state in END_STATES or not self._network_paths:
+            # nothing to send: the connection is closing, or (for a server) no
+            # acceptable packet has been received yet
             return []
+        network_path = self._network_paths[0]
 
         # build datagrams
         builder = QuicPacketBuilder(
